@@ -1,6 +1,9 @@
 """C16 — parameter files round-trip in every supported format; specifications equal the programmatic construction.
 
-(1) translator  `generate(ck)`: Consts tables regenerated from the source (harness/props/_c16_tables.py)
+(1) translator  `generate(ck)`: Consts tables regenerated from the source (harness/props/_c16_tables.py); the eight
+      specification functions (sanitize_parameter_list … Parameters.from_dict) translated from their Python source into
+      Lean definitions (harness/props/_c16_fns.py -> Generated/C16Fns.lean) that `generated_*_eq_model` proves equal to
+      the model for all inputs
 (2) correspondence: real code in-process vs the Lean model (lean/GlotaranModel/C16.lean)
       roundtrip   save_parameters -> load_parameters for csv / tsv (separator, replace_infinfinity) / xlsx / ods,
                   two cycles; loaded parameters and the raw cells of the written file
@@ -17,6 +20,9 @@
          identical to the first
       O2 intent: from_dict / from_list / yml_str of the rendered specification == Parameters built with Parameter(...)
       O3 every loaded Parameters: expression parameters hold the value of their expression (stale file values)
+      O4 serialized: the yml text glotaran writes itself (to_parameter_dict_or_list(serialize_parameters=True) + write_dict,
+         as Project.generate_parameters does) loads back as the same parameters, for every set the specification language
+         can express (all labels flat, or all in leaf groups)
 """
 from __future__ import annotations
 
@@ -27,6 +33,7 @@ from fractions import Fraction
 
 from harness import core
 from harness.core import enc
+from harness.props import _c16_fns as fns
 from harness.props import _c16_gen as gen
 from harness.props import _c16_real as real
 from harness.props import _c16_tables as tables
@@ -41,6 +48,10 @@ REQUIRED_THEOREMS = [
     "loaded_expressions_consistent", "constructed_expressions_consistent",
     "constructed_sets_roundtrip_partial", "flatten_labels", "flatten_order", "numbering_spec", "definition_components", "defaults_then_overrides",
     "dict_eq_programmatic_partial", "dict_eq_programmatic_counterexample", "auto_label_spec",
+    "generated_convert_scientific_to_float_eq_model", "generated_sanitize_parameter_list_eq_model",
+    "generated_deserialize_options_eq_model", "generated_retrieve_item_eq_model", "generated_Parameter_from_list_eq_model",
+    "generated_flatten_parameter_dict_eq_model", "generated_Parameters_from_list_eq_model",
+    "generated_Parameters_from_dict_eq_model",
 ]
 TRUSTED = [
     "hand-written model lean/GlotaranModel/C16.lean of the glotaran layer of the pandas plugins (csv.py, tsv.py, xlsx.py), "
@@ -50,6 +61,10 @@ TRUSTED = [
     "pandas' read_csv(float_precision='round_trip', dtype str for label/expression) / read_excel returns every cell with "
     "its value and type, except that None/NaN and strings that are NA tokens come back as NaN (model: readFrame); "
     "repr/strtod of doubles is exact; openpyxl is known to violate this (16 significant digits) — known finding",
+    "the function translator harness/props/_c16_fns.py (python ast -> Lean): the parameter types it gives each function, its "
+    "table of builtins and lean/GlotaranModel/C16Py.lean (Python's builtins on the model's value types); Parameter.__init__ "
+    "(attrs), Parameters.__init__, float(), the regular expression and the dict keys formatted by f-strings stay primitives; "
+    "mutation of the caller's specification lists by `item += [...]` is not observed by the translation",
     "the translator harness/props/_c16_tables.py (import + ast of csv.py / xlsx.py) that regenerates Generated/C16.lean; "
     "cross-checked on every run against the driver's `consts` and against is_text_column",
     "expression texts are parsed by the harness (C12's reader of the $label syntax), expression semantics is the C12 model",
@@ -665,6 +680,80 @@ def gen_intent_case(rng, reserved_ok=False):
 
 
 # ------------------------------------------------------------------------------------------
+# stream: the yml text glotaran itself writes for a parameter set (oracle only)
+# ------------------------------------------------------------------------------------------
+def spec_representable(labels):
+    """can the specification language express this set: all labels flat, or every label inside a group, no group that
+    holds parameters and sub-groups, no short label the language reads as something else"""
+    from glotaran.parameter.parameter import RESERVED_LABELS
+    from glotaran.utils.sanitize import convert_scientific_to_float
+    parts = [l.split(".") for l in labels]
+    flat = all(len(p) == 1 for p in parts)
+    if not flat and any(len(p) == 1 for p in parts):
+        return False
+    leaves = {tuple(p[:-1]) for p in parts}
+    for g in leaves:
+        if any(tuple(q[:len(g)]) == g and len(q) > len(g) + 1 for q in parts) and not flat:
+            return False
+    for p in parts:
+        short = p[-1]
+        try:
+            if not isinstance(convert_scientific_to_float(short), str):
+                return False
+        except ValueError:
+            return False
+        if not flat and short in RESERVED_LABELS:
+            return False
+    return True
+
+
+def serialized_case(ck, case, scratch):
+    """Parameters -> to_parameter_dict_or_list(serialize_parameters=True) -> yml file (write_dict, as
+    Project.generate_parameters does) -> load_parameters: the same parameters (group by group in order)"""
+    from glotaran.builtin.io.yml.utils import write_dict
+    from glotaran.io import load_parameters
+    built = run_real(lambda: real.build(case["params"]))
+    if built[0] != "ok" or not built[1]:
+        return
+    src, obj = built[1], built[2]
+    if not spec_representable([t[0] for t in src]):
+        ck.count("serialized:not-representable")
+        return
+    ck.case(("serialized", repr(src)), nontrivial=True)
+    ck.count("serialized:" + ("flat" if all("." not in t[0] for t in src) else "nested"))
+    ck.oracle_evals += 1
+    path = scratch.path("yml")
+    try:
+        write_dict(obj.to_parameter_dict_or_list(serialize_parameters=True), path)
+    except Exception as e:  # noqa: BLE001
+        ck.violation(f"serialized-not-writable:{type(e).__name__}", "the serialized form of a valid parameter set cannot be "
+                     f"written to yml: {str(e)[:160]}", case)
+        return
+    out = run_real(lambda: load_parameters(path))
+    if out[0] == "skip":
+        return
+    if out[0] == "err":
+        ck.violation(f"serialized-load-raises:{out[1]}", f"load_parameters of the serialized yml raises {out[2]!r}", case)
+        return
+    a = sorted(src, key=lambda t: t[0])
+    b = sorted(out[1], key=lambda t: t[0])
+    groups = lambda ts: {g: [t[0] for t in ts if t[0].rsplit(".", 1)[0] == g] for g in {t[0].rsplit(".", 1)[0] for t in ts}} \
+        if any("." in t[0] for t in ts) else {"": [t[0] for t in ts]}
+    if [t[0] for t in a] != [t[0] for t in b] or groups(src) != groups(out[1]):
+        ck.violation("serialized-labels-differ", f"serialized yml gives labels {[t[0] for t in out[1]]}, saved {[t[0] for t in src]}", case)
+    elif not same_result(("ok", [t for t in a if t[3] is None]), ("ok", [t for t in b if t[3] is None])) \
+            or [(t[0], t[3]) for t in a] != [(t[0], t[3]) for t in b]:
+        ck.violation("serialized-parameters-differ", f"serialized yml gives {short(('ok', b))}, saved {short(('ok', a))}", case)
+    else:
+        check_expressions(ck, out[1], case, "serialized")
+
+
+def gen_serialized_case(rng):
+    dicts, _ = gen.param_set(rng, n=rng.choice([1, 2, 3, 4, 6]), shape=rng.choice(["nested", "nested", "integer", "numeric", "mixed", "tricky"]))
+    return {"kind": "serialized", "params": dicts}
+
+
+# ------------------------------------------------------------------------------------------
 # stream: scanners
 # ------------------------------------------------------------------------------------------
 def scanner_cases(ck, exhaustive_len):
@@ -748,7 +837,9 @@ _TABLES = {}
 def generate(ck):
     g, t = tables.generate(ck)
     _TABLES.update(t)
-    return g
+    f = fns.generate(ck)
+    _TABLES["functions"] = f["functions"]
+    return g + [f]
 
 
 def run_case(ck, batch, case, scratch, with_model=True):
@@ -761,6 +852,8 @@ def run_case(ck, batch, case, scratch, with_model=True):
         spec_case(ck, batch, case, with_model)
     elif k == "intent":
         intent_case(ck, batch, case, with_model)
+    elif k == "serialized":
+        serialized_case(ck, case, scratch)
     else:
         raise core.HarnessError(f"unknown case kind {k!r}")
 
@@ -771,6 +864,8 @@ def witness_cases():
         {"kind": "roundtrip", "fmt": "csv", "params": [{"label": "NA", "value": 1.0}, {"label": "b", "value": 2.0}],
          "witness": "save_load_counterexample"},
         {"kind": "roundtrip", "fmt": "xlsx", "params": [{"label": "a", "value": 0.00017054887045275802}], "witness": "xlsx-16-digits"},
+        {"kind": "serialized", "params": [{"label": "a", "value": 1.5}, {"label": "b", "value": 2.0, "vary": False}],
+         "witness": "flat-serialize (fixed)"},
         {"kind": "intent", "witness": "reserved-short-label",
          "intent": {"flat": False, "groups": [{"path": ["kinetic"], "defaults": None, "defaults_at": 0, "defaults_serialized": {},
                                                "params": [{"label": "e", "value": 1.0, "opts": {}, "style": "list", "sci": False,
@@ -802,6 +897,8 @@ def run(ck):
             run_case(ck, batch, gen_spec_case(rng), scratch)
         for i in range(ck.n(550, 6000)):
             run_case(ck, batch, gen_intent_case(rng, reserved_ok=(i % 40 == 0)), scratch)
+        for _ in range(ck.n(250, 2500)):
+            run_case(ck, batch, gen_serialized_case(rng), scratch)
         scanner_stream(ck, batch)
         if not ck.quick:
             exhaustive_small_specs(ck, batch)
